@@ -93,14 +93,14 @@ Section Inv.
       destruct e; cbn in He; try contradiction; cnts; rewrite ?cnt_nil in *; lia. }
     destruct it as [[o|sc|sc f]|j0 f|j0 r0]; cbn [step endf_of due_of]; cnts.
     - destruct o as [|f|i| |i|j1 ok v]; cbn [step_sop].
-      + pose proof (acquire_eff (CPlain []) s j) as (A1 & A2 & (A3 & A4) & A5). rewrite A2, A3, A4, A5. cnts. lia.
+      + pose proof (acquire_eff (CPlain [] []) s j) as (A1 & A2 & (A3 & A4) & A5). rewrite A2, A3, A4, A5. cnts. lia.
       + pose proof (acquire_eff (CRun [] f) s j) as (A1 & A2 & (A3 & A4) & A5). rewrite A2, A3, A4, A5. cnts. lia.
       + destruct (mem i (plain s)).
         * pose proof (release_eff HPlain i s j) as (A1 & A2 & (A3 & A4) & A5). rewrite A2, A3, A4, A5. cnts.
           cbn [run_drop] in A1. lia.
         * cbn [fst snd running log emit]. cnts. lia.
       + cbn [fst snd running log emit]. cnts. lia.
-      + destruct (mem i (ids (waiting s))); [cbn [fst snd running log emit set_waiting]; cnts; lia|].
+      + destruct (mem i (ids (waiting s))); [cbn [fst snd running log emit set_waiting]; cnts; rewrite ?endfs_errback, ?due_errback; cnts; lia|].
         destruct (mem i (pending s)).
         * pose proof (fn_done_eff HPending i Cancelled s j) as (A1 & A2 & A3 & A4 & A5). rewrite A2, A3, A4, A5.
           cbn [run_drop] in A1. lia.
@@ -109,7 +109,7 @@ Section Inv.
         * pose proof (fn_done_eff HPending j1 (if ok then OK v else Boom) s j) as (A1 & A2 & A3 & A4 & A5).
           rewrite A2, A3, A4, A5. cbn [run_drop] in A1. lia.
         * cbn [fst snd running log emit]. cnts. lia.
-    - pose proof (acquire_eff (CPlain sc) s j) as (A1 & A2 & (A3 & A4) & A5). rewrite A2, A3, A4, A5. cnts. lia.
+    - pose proof (acquire_eff (CPlain sc esc) s j) as (A1 & A2 & (A3 & A4) & A5). rewrite A2, A3, A4, A5. cnts. lia.
     - pose proof (acquire_eff (CRun sc f) s j) as (A1 & A2 & (A3 & A4) & A5). rewrite A2, A3, A4, A5. cnts. lia.
     - destruct f as [v| | | |].
       + pose proof (fn_done_eff HRunning j0 (OK v) s j) as (A1 & A2 & A3 & A4 & A5). rewrite A2, A3, A4, A5.
